@@ -47,7 +47,7 @@ pub fn gen_field(rng: &mut Rng, depth: usize) -> Field {
     let nullable = matches!(dt, T::Null) || rng.chance(1, 2);
     let mut f = mk(name, dt, nullable);
     if let Some(s) = strategy { f.metadata.insert("SERDE_ARROW:strategy".into(), s.into()); }
-    for _ in 0..*rng.pick(&[0usize, 0, 0, 1, 2]) { f.metadata.insert(rng.pick(&["origin", "k", "", "ARROW:extension:name", "é"]).to_string(), rng.pick(&["v", "", "arrow.bool8", "{\"a\":1}", "ü"]).to_string()); }
+    for _ in 0..*rng.pick(&[0usize, 0, 0, 1, 2]) { f.metadata.insert(rng.pick(&["origin", "k", "", "ARROW:extension:name", "é", "SERDE_ARROW:source", "SERDE_ARROW:strategy:hint", "SERDE_ARROW:", "serde_arrow:strategy"]).to_string(), rng.pick(&["v", "", "arrow.bool8", "{\"a\":1}", "ü"]).to_string()); }
     f
 }
 
